@@ -950,8 +950,9 @@ fn update_import_freshness(
     // descriptions. If the description already exists, notify our caller.
     for (criteria_name, old_entry) in &existing_audits_file.criteria {
         if let Some(new_entry) = audits_file.criteria.get(criteria_name) {
-            let old_desc = old_entry.description.as_ref().unwrap();
-            let new_desc = new_entry.description.as_ref().unwrap();
+            // A hand-edited imports.lock may lack the description; treat that as empty.
+            let old_desc = old_entry.description.as_deref().unwrap_or("");
+            let new_desc = new_entry.description.as_deref().unwrap_or("");
             if old_desc != new_desc {
                 on_changed_criteria_description(criteria_name, old_desc, new_desc);
             }
